@@ -46,7 +46,8 @@ class DG:
         r = self.rng
         if want:
             return self.tk(r.choice([True, 0, q([]), "", q(S("a")), r.randint(1, 9)]))
-        return self.tk(False)
+        # false is #f however it is written: as a literal, a quotation, or the value of a variable-free expression
+        return self.rng.choice([self.tk(False), self.tk(False), q(False), [S("quote"), False] if False else self.tk(q(False)), self.tk([S("not"), 1])])
 
     def proc_leaf(self, env, inner):
         """a procedure for a => receiver: applies `inner` builder to its argument"""
@@ -75,7 +76,19 @@ class DG:
                     scope = scope + [v]
             inner = env + names
             nbody = r.randint(0, 2)
-            return [S(form), binds] + [sub("body-first", inner) for _ in range(nbody)] + [sub("last", inner)]
+            defs = []
+            if r.random() < 0.3:
+                # internal definitions at the head of the body, sometimes named like a variable of an enclosing scope: they are local to this body
+                for _ in range(r.randint(1, 2)):
+                    dv = r.choice(env) if (env and r.random() < 0.6) else self.var()
+                    # the initialiser does not mention the name being defined (R7RS: that would refer to the new, still uninitialised binding)
+                    defs.append([S("define"), S(dv), self.leaf([v for v in inner if v != dv])])
+                    inner = inner + [dv]
+            expr = [S(form), binds] + defs + [sub("body-first", inner) for _ in range(nbody)] + [sub("last", inner)]
+            if defs and env:
+                # read the enclosing scope's variables after the body
+                return [S("list"), expr] + [S(v) for v in env[:3]]
+            return expr
         if form == "cond":
             n = r.randint(1, 4)
             sel = r.randrange(n + 1)      # n = fall through to else / nothing
